@@ -2,9 +2,9 @@
 # seed_one.sh <seed-name> [tier]: run one seeded change (/verif/seeded/<name>) against its check in a private copy of /verif and a
 # scratch worktree of /repo (several invocations may run side by side); prints the result line and merges it into seeded/RESULTS.jsonl.
 set -u
-name=$1; TIER=${2:-quick}; id=${name%%-*}
+name=$1; TIER=${2:-quick}; id=${3:-${name%%-*}}   # optional 3rd argument: run ANOTHER property's check on this seed (result not recorded)
 source /verif/env.sh
-W=/tmp/sweep1/$name; rm -rf $W; mkdir -p $W
+W=/tmp/sweep1/$name${3:+.$3}; rm -rf $W; mkdir -p $W
 rsync -a --exclude .git --exclude /replays --exclude /work /verif/ $W/verif/
 git -C /repo worktree prune; git -C /repo worktree add -q --detach $W/repo HEAD
 git -C $W/repo apply /verif/seeded/$name/patch.diff || { echo "patch does not apply"; git -C /repo worktree remove --force $W/repo; exit 2; }
@@ -18,6 +18,7 @@ kind=""; [ -n "$rp" ] && [ -f "$rp" ] && kind=$(python3 -c "import json,sys;prin
 line="{\"seed\":\"$name\",\"rc\":$rc,\"violations\":$v,\"no_failing_input\":$nf,\"kind\":\"$kind\",\"secs\":$((t1-t0))}"
 echo "$line"
 git -C /repo worktree remove --force $W/repo; rm -rf $W
+[ -n "${3:-}" ] && exit 0
 ( flock 9; python3 - "$line" "$TIER" <<'PY'
 import json,os,subprocess,sys
 p='/verif/seeded/RESULTS.jsonl'
